@@ -534,7 +534,8 @@ def _bucketing(prog, res):
     raise AnalysisError('_bucketize_consequtive_equal_dims: run detection '
                         'vanished')
   probs = _bad(tests[0].test, 'start of a new bucket',
-               'lattice_sizes[i] != lattice_sizes[i - 1]')
+               'lattice_sizes[i] != lattice_sizes[i - 1]',
+               'lattice_sizes[i - 1] != lattice_sizes[i]')
   res.check(not probs, 'H7', fn.qualname + '|consecutive-runs', fn.loc(),
             'a new bucket starts where consecutive sizes differ',
             '; '.join(probs))
